@@ -470,12 +470,39 @@ def rule_R16_4(ctx):
     f, op_p, lhs_p, rhs_p = cands[0]
     pv = prov.Prov(prog, foreign="stop", field_based=False, follow_params=False)
     n = 0
-    for g in [f] + prog.closures_of(f.path):
+    # the error may be built by the operator function, by one of its closures,
+    # or by a hand-written helper it calls with its operands
+    helpers_ = []
+    for c_ in f.calls():
+        h_ = prog.fns.get(c_.res) if not c_.is_ptr else None
+        if h_ is not None and h_.full and not h_.is_closure and not h_.generated and h_.path != f.path \
+                and h_ not in helpers_ and (
+                    any(True for _ in h_.aggregates(ERR, "InvalidOpTypes"))
+                    or any(True for _ in h_.aggregates(ERR, "InvalidEqOpTypes"))):
+            helpers_.append(h_)
+
+    def to_f_params(g_, idxs):
+        """parameter indices of helper g_ -> parameter indices of f (through
+        the arguments at f's call sites of g_)."""
+        out_ = set()
+        for c_ in f.calls():
+            if c_.is_ptr or c_.res != g_.path:
+                continue
+            for k_ in idxs:
+                if k_ - 1 < len(c_.args):
+                    cp_ = [p for p in f.canon_op(c_.args[k_ - 1]) if p not in ("&", "*")]
+                    if cp_ and cp_[0][0] == "arg":
+                        out_.add(cp_[0][1])
+        return sorted(out_)
+    for g in [f] + prog.closures_of(f.path) + helpers_:
         for bb, i, pl, kd, aops, sp in g.aggregates(ERR, "InvalidOpTypes"):
             n += 1
             got = {}
             for name in ("lhs", "rhs"):
                 o = pv.origins(g, aops[kd["fields"].index(name)], ())
+                if g in helpers_:
+                    got[name] = to_f_params(g, sorted(set(x[2] for x in o if x[0] == "param" and x[1] == g.path)))
+                    continue
                 got[name] = sorted(set(x[2] for x in o if x[0] == "param" and x[1] == f.path))
             want = {"lhs": [lhs_p[0][1]], "rhs": [rhs_p[0][1]]}
             r.inst("%s: InvalidOpTypes{lhs <- param %s, rhs <- param %s}" % (g.path, got["lhs"], got["rhs"]))
